@@ -140,12 +140,12 @@ Definition run_with (src : text) (orc0 : oracle) (stdin0 : text) : text :=
     end
   end.
 
-Definition no_oracle : oracle := mkOracle [] [] 1700000000000%float [].
+Definition no_oracle : oracle := mkOracle [] [] 1700000000000%float [] [].
 Definition run_obs (src : text) : text := run_with src no_oracle [].
 Definition run_obs_files (src : text) (files : list (text * text)) : text :=
-  run_with src (mkOracle [] [] 1700000000000%float files) [].
+  run_with src (mkOracle [] [] 1700000000000%float files []) [].
 Definition run_obs_libm (src : text) (tab : list (string * list N * N)) : text :=
-  run_with src (mkOracle tab [] 1700000000000%float []) [].
+  run_with src (mkOracle tab [] 1700000000000%float [] []) [].
 
 (** the reference semantics (EvalSpec) on the same channel: used as the direct oracle of C01-C03 *)
 From Aplang Require Import EvalSpec.
@@ -177,3 +177,31 @@ Definition cli_obs (mode : N) (dbg : N) (chk : bool) (src stdin0 : text) : text 
   let input := match mode with 0 | 1 => stdin0 | _ => src end in
   let r := cli_run (mkConfig s d chk) files input no_oracle in
   sb "S" ++ dec (status r) ++ sp ++ hex_or_dash (stdout_ r) ++ sb " E" ++ (if stderr_nonempty r then [49] else [48]).
+
+(** * FS channel K4: the run channel plus a dump of the named paths afterwards *)
+Definition final_state {A} (r : res A) : option state :=
+  match r with ROk _ st | RErr _ _ st | RExit st | RPanic _ st => Some st | RFuel => None end.
+
+Definition fsent_obs (e : option fsent) : text :=
+  match e with
+  | None => sb "-"
+  | Some FDir => sb "D"
+  | Some (FFile c) => sb "F" ++ hex_text c
+  end.
+
+Definition run_obs_fs (src root : text) (paths : list text) : text :=
+  match lex src with
+  | LexOk ts =>
+    match parse_tokens ts with
+    | ParseOk prog =>
+      let r := block_top (exec run_fuel) prog
+                 (fresh_state [] [] [] (mkOracle [] [] 1700000000000%float [] [(root, FDir)]) []) in
+      res_obs r ++ sb " |" ++
+      match final_state r with
+      | Some st => concat (map (fun p => sp ++ fsent_obs (fs_get (o_fs (orc st)) p)) paths)
+      | None => []
+      end
+    | _ => sb "PARSE"
+    end
+  | _ => sb "LEX"
+  end.
